@@ -7,3 +7,4 @@ Definition k_flow_writer_push_set : pfun :=
     ] [];
     SReturn (PCall "ASN1Writer/tag,parent" [(PName "tag"); (PName "self")])
   ] |}.
+Definition k_flow_writer_push_set_defaults : list (string * pexp) := [("tag", PNone)].
